@@ -77,6 +77,10 @@ type Spec struct {
 	Cancel  Cancel  `json:"cancel"`
 	HoldUS  int     `json:"hold_us,omitempty"` // eager policy: how long a task holds (max, microseconds)
 	Chunks  int     `json:"chunks,omitempty"`
+	// Pre - the same Graph object is first run once with PreTasks trivial independent tasks under limit PreMaxPar
+	// (uncontrolled, not logged); only then the history is applied, the limit is set to MaxPar and the monitored run starts.
+	PreTasks   int  `json:"pre_tasks,omitempty"`
+	PreMaxPar  int  `json:"pre_maxpar,omitempty"`
 	SerialMask int  `json:"serial_mask,omitempty"` // bit g set: graph g of a shared-task workload runs in serial mode
 	NGraphs int     `json:"ngraphs,omitempty"` // >1: several graphs over the same Tasks run concurrently (eager only)
 }
@@ -361,6 +365,7 @@ type runner struct {
 
 	attempts [][]int32 // per graph, per task: attempts started
 	cancelReturned int32
+	preErr error
 	cancel   context.CancelFunc
 	rng      uint64
 	sentinels []error
@@ -491,6 +496,15 @@ func (r *runner) build(gi int, tasks []*dag.Task) *dag.Graph {
 	g := dag.NewGraph(r.names[gi])
 	g.TickerDuration = 20 * time.Microsecond
 	g.UseColor = false
+	if r.spec.PreTasks > 0 {
+		for k := 0; k < r.spec.PreTasks; k++ {
+			g.AddTask(dag.NewTask(fmt.Sprintf("pre%d", k), func(context.Context, *getoptions.GetOpt, []string) error { return nil }))
+		}
+		if r.spec.PreMaxPar > 0 {
+			g.SetMaxParallel(r.spec.PreMaxPar)
+		}
+		r.preErr = g.Run(context.Background(), nil, nil)
+	}
 	for _, c := range r.spec.Hist {
 		switch c.Op {
 		case "add":
@@ -569,7 +583,10 @@ func Execute(spec *Spec) *Trace {
 		}
 	}()
 	// DepthFirstSort (C16)
-	if ng == 1 {
+	if r.preErr != nil {
+		tr.Timeout = "preliminary run of the graph failed: " + r.preErr.Error()
+	}
+	if ng == 1 && spec.PreTasks == 0 {
 		sorted, err := graphs[0].DepthFirstSort()
 		if err != nil {
 			tr.SortErr = err.Error()
